@@ -108,10 +108,18 @@ let run (c : string) (obs : string) : string * string * string =
       let np = List.length (List.filter (fun call -> panics (int_of_string (List.hd (String.split_on_char ':' call)))) calls) in
       Printf.sprintf "set=%s order=%s p=%d lv=%s" (j sorted) (j order) np lv in
     (match out, f with
-     | OTargets l, ["notify"; _; h] ->
+     | OTargets _, ["notify"; _; h] ->
+       (* the model's delivery: targets sorted by non-increasing priority, panicking targets recovered (Model.deliver); the
+          implementation's order is accepted when its priority sequence is the model's (ties may come in any order) *)
        let name = hex (str_of_natl (normalize (natl (unhex h)))) in
-       let l' = List.map (fun (t, pr) -> (int_of_nat t, int_of_z pr)) l in
-       render (List.map (fun (t, _) -> Printf.sprintf "%d:%s" t name) l') l'
+       let ev = deliver (fun t -> panics (int_of_nat t)) (if w = 0 then a else b) (natl (unhex h)) in
+       let l' = List.map (fun (t, pr) -> (int_of_nat t, int_of_z pr)) (calls ev) in
+       let mcalls = List.map (fun (t, _) -> Printf.sprintf "%d:%s" t name) l' in
+       let sorted = List.sort compare mcalls in
+       let pr_of call = let t = int_of_string (List.hd (String.split_on_char ':' call)) in try List.assoc t l' with Not_found -> min_int in
+       let order = if List.sort compare impl_order = sorted && List.map pr_of impl_order = List.map snd l' then impl_order else mcalls in
+       let j l = if l = [] then "." else String.concat "," l in
+       Printf.sprintf "set=%s order=%s p=%d lv=%s" (j sorted) (j order) (List.length (recovered ev)) lv
      | OBatch l, ("start" :: _) -> render (List.map (fun t -> Printf.sprintf "%d:B1" (int_of_nat t)) l) []
      | OBatch l, ("end" :: _) -> render (List.map (fun t -> Printf.sprintf "%d:B0" (int_of_nat t)) l) []
      | _ -> render [] [])) ops in
